@@ -1,7 +1,4 @@
-use std::{
-    io::{BufRead, Chain, Cursor, ErrorKind, Read, Result as IoResult},
-    slice,
-};
+use std::io::{BufRead, Chain, Cursor, ErrorKind, Read, Result as IoResult};
 
 use super::encoding::Encoding;
 
@@ -71,25 +68,72 @@ impl<R: BufRead> Decoder<R> {
     pub fn read_line(&mut self) -> IoResult<Option<&str>> {
         self.read_buf.clear();
 
-        if self.inner.read_until(b'\n', &mut self.read_buf)? == 0 {
-            return Ok(None);
-        }
+        loop {
+            if self.inner.read_until(b'\n', &mut self.read_buf)? == 0 {
+                break;
+            }
 
-        // Reading up to b'\n' will miss the final b'\0' for an UTF-16LE encoded
-        // string so we need to read an additional byte.
-        if self.encoding == Encoding::Utf16LE && self.read_buf.ends_with(b"\n") {
-            let mut byte = 0;
+            if !self.read_buf.ends_with(b"\n") {
+                // End of input without a line break.
+                break;
+            }
 
-            match self.inner.read_exact(slice::from_mut(&mut byte)) {
-                Ok(()) => self.read_buf.push(byte),
-                // The input ends right after the `\n` byte; that is the
-                // end of the data, not a failure of the reader.
-                Err(err) if err.kind() == ErrorKind::UnexpectedEof => {}
-                Err(err) => return Err(err),
+            // In UTF-16 the byte `b'\n'` also occurs inside code units other
+            // than U+000A (e.g. U+010A or U+0A41); the line only ends at a
+            // code unit that *is* U+000A.
+            let last = self.read_buf.len() - 1;
+
+            match self.encoding {
+                Encoding::Utf8 => break,
+                Encoding::Utf16BE => {
+                    // `00 0A` with the `0A` as second byte of its unit
+                    if last % 2 == 1 && self.read_buf[last - 1] == 0 {
+                        break;
+                    }
+                }
+                Encoding::Utf16LE => {
+                    // `0A 00` with the `0A` as first byte of its unit.
+                    // Reading up to b'\n' misses the second byte of the
+                    // unit so we need to read an additional byte.
+                    if last % 2 == 0 {
+                        match self.next_byte()? {
+                            Some(byte) => {
+                                self.read_buf.push(byte);
+
+                                if byte == 0 {
+                                    break;
+                                }
+                            }
+                            // The input ends right after the `\n` byte.
+                            None => break,
+                        }
+                    }
+                }
             }
         }
 
+        if self.read_buf.is_empty() {
+            return Ok(None);
+        }
+
         Ok(Some(self.curr_line()))
+    }
+
+    /// Takes the next byte out of the reader; `None` at the end of input.
+    fn next_byte(&mut self) -> IoResult<Option<u8>> {
+        loop {
+            match self.inner.fill_buf() {
+                Ok([]) => return Ok(None),
+                Ok([byte, ..]) => {
+                    let byte = *byte;
+                    self.inner.consume(1);
+
+                    return Ok(Some(byte));
+                }
+                Err(ref err) if err.kind() == ErrorKind::Interrupted => {}
+                Err(err) => return Err(err),
+            }
+        }
     }
 
     pub fn curr_line(&mut self) -> &str {
